@@ -1,14 +1,15 @@
 #!/venv/bin/python
 """tools/keep_seed.py <PID> <a|b> <detected_by comma list or -> <needs text...>
 Copy a confirmed seeded change from /tmp/seed_out into /verif/seeded/<PID>-<x>/."""
-import json, shutil, sys
+import json, os, shutil, sys
 from pathlib import Path
 pid, x, det = sys.argv[1:4]
 needs = " ".join(sys.argv[4:])
-src = Path("/tmp/seed_out") / pid
+src = Path(os.environ.get("SEED_SRC", "/tmp/seed_out")) / pid
+tag = os.environ.get("SEED_TAG", "")
 conf = json.loads((src / f"confirm_{x}.json").read_text())
 assert conf["demo_clean_rc"] == 0 and conf["apply_rc"] == 0 and conf["demo_patched_rc"] != 0 and conf["suite"].startswith("503 passed"), conf
-dst = Path("/verif/seeded") / f"{pid}-{x}"
+dst = Path("/verif/seeded") / f"{pid}-{tag}{x}"
 dst.mkdir(parents=True, exist_ok=True)
 shutil.copy(src / f"patch_{x}.diff", dst / "patch.diff")
 shutil.copy(src / f"demo_{x}.py", dst / "demo.py")
